@@ -1,4 +1,5 @@
 import Proofs.InvCorrect
+import Proofs.InvTotal
 import Proofs.FitGeneral
 import Mathlib.LinearAlgebra.Matrix.Determinant.Basic
 import Mathlib.LinearAlgebra.Matrix.NonsingularInverse
@@ -67,6 +68,41 @@ theorem inv_singular (eps : K) (heps : 0 < eps) (a : Mat n K) (hdet : (toM a).de
               exact ih s1 hc
         exact key _ _ he'
       · cases h
+
+/-- **totality on regular input as the singularity threshold goes to zero**: for every
+invertible matrix there is a positive threshold `eps0` (the smallest pivot magnitude of the
+elimination, `invEps0 a`) such that `inv` returns for every `0 < eps ≤ eps0`; by `inv_correct`
+what it returns is the inverse -/
+theorem inv_total (a : Mat n K) (hdet : (toM a).det ≠ 0) :
+    ∃ eps0 : K, 0 < eps0 ∧ ∀ eps : K, 0 < eps → eps ≤ eps0 → ∃ x, invSq eps a = .ok x :=
+  ⟨invEps0 a, invEps0_pos a hdet, fun eps _ hle => invSq_total a eps hle⟩
+
+/-- … and the returned matrix is the two-sided inverse -/
+theorem inv_total_correct (a : Mat n K) (hdet : (toM a).det ≠ 0) :
+    ∃ eps0 : K, 0 < eps0 ∧ ∀ eps : K, 0 < eps → eps ≤ eps0 →
+      ∃ x, invSq eps a = .ok x ∧ toM x * toM a = 1 ∧ toM a * toM x = 1 := by
+  obtain ⟨eps0, h0, h⟩ := inv_total a hdet
+  refine ⟨eps0, h0, fun eps he hle => ?_⟩
+  obtain ⟨x, hx⟩ := h eps he hle
+  exact ⟨x, hx, invSq_correct eps he a x hx⟩
+
+/-- the threshold is sharp in `eps`: a singular exit on regular input means that some pivot of
+the (eps-independent) elimination is non-zero but below `eps` -/
+theorem inv_singular_exit (eps : K) (a : Mat n K) (hdet : (toM a).det ≠ 0)
+    (h : invSq eps a = .error .singular) :
+    ∃ p ∈ pivs (List.finRange n) (⟨a, idMat, idMat⟩ : InvSt n K), 0 < p ∧ p < eps := by
+  by_contra hcon
+  have hall : ∀ p ∈ pivs (List.finRange n) (⟨a, idMat, idMat⟩ : InvSt n K), ¬ p < eps := by
+    intro p hp hlt
+    apply hcon
+    refine ⟨p, hp, ?_, hlt⟩
+    exact pivs_pos (toM a) hdet (List.finRange n) 0 _ finRange_map_val (fwdInv_init a)
+      (by rw [toM_idMat, Matrix.det_one]; exact one_ne_zero) p hp
+  have hfold := foldlM_fwdStep_ok eps (List.finRange n) (⟨a, idMat, idMat⟩ : InvSt n K) hall
+  unfold invSq at h
+  simp only [bind, Except.bind, pure, Except.pure] at h
+  rw [hfold] at h
+  cases h
 
 /-- the uniqueness half: if `inv` returns, the matrix was invertible and the result is *the*
 inverse (so it agrees with any exact inverse) -/
@@ -182,5 +218,10 @@ theorem collinear_general_singular (eps : K) (heps : 0 < eps) (obs : List (Obs K
 example : (invRows (K := ℚ) (1/1000000) [[0, 2], [1, 0]]) = .ok [[0, 1], [1/2, 0]] := by decide +kernel
 example : (invRows (K := ℚ) (1/1000000) [[1, 2], [2, 4]]) = .error .singular := by decide +kernel
 example : (invRows (K := ℚ) (1/1000000) [[1, 2, 3], [2, 4]]) = .error .notSquare := by decide +kernel
+
+-- the threshold of a concrete matrix, and totality at and below it
+example : invEps0 (K := ℚ) (matOfRows 2 [[0, 2], [1, 0]]) = 1 := by decide +kernel
+example : (invRows (K := ℚ) 1 [[0, 2], [1, 0]]) = .ok [[0, 1], [1/2, 0]] := by decide +kernel
+example : (invRows (K := ℚ) (3/2) [[0, 2], [1, 0]]) = .error .singular := by decide +kernel
 
 end TW.C17
